@@ -76,7 +76,7 @@ def generate(seed, tier):
                 [{'jsonrpc': '2.0', 'method': 'ok', 'params': [1], 'id': 1}, 1],
                 [{'jsonrpc': '2.0', 'method': 'ok', 'params': [1], 'id': 1}, {'jsonrpc': '2.0', 'method': 'f', 'id': 1}]):
         cases.append({'cfg': base, 'text': json.dumps(bad)})
-    for t in corpus.malformed_texts() + corpus.huge_int_texts()[:10]:
+    for t in corpus.malformed_texts() + [x for x in corpus.huge_int_texts() if 19 < len(x) < 5200]:
         cases.append({'cfg': base, 'text': t})
     for mb in (1, 2):
         c = dict(base, max_batch=mb)
